@@ -120,6 +120,9 @@ def check_repro_delayed(case):
 # (ii) temperature zero
 # ---------------------------------------------------------------------------------------------
 def _zero_kw(form, k):
+    if form == "list_short_duration":
+        # an explicit schedule decides the number of sweeps; anneal_duration is documented as ignored then
+        return {"schedule": [0] * k, "anneal_duration": 1}
     if form == "list":
         return {"schedule": [0] * k}
     if form == "floatlist":
@@ -235,7 +238,7 @@ def _gen_zero_exact(ctx):
             inits = [{i: rng.choice(dom) for i in range(n)} for _ in range(2)] + [{i: dom[0] for i in range(n)}]
             for init in inits:
                 k = rng.choice([1, 1, 2, 3])
-                kw = _zero_kw(rng.choice(["list", "floatlist", "linear00"]), k)
+                kw = _zero_kw(rng.choice(["list", "floatlist", "linear00", "list_short_duration"]), k)
                 kw.update(num_anneals=rng.choice([1, 2]), in_order=True, initial_state=init)
                 if rng.random() < 0.5:
                     kw["seed"] = rng.choice(SEEDS)
